@@ -207,9 +207,10 @@ func Controller(thorough bool, expired func() bool, level func(name string, comp
 		yield(Simple(k))
 	}
 	yield(Hello())
-	// hello with 0..3 version-bitmap elements of 1..3 bitmaps each (set through the exported fields)
+	// hello with 0..3 version-bitmap elements of 0..3 bitmaps each (set through the exported fields);
+	// an element without any bitmap word is 4 bytes of header and 4 of padding
 	yield(wire.New("hello"))
-	for _, counts := range [][]int{{2}, {3}, {1, 1}, {2, 1}, {1, 2}, {3, 1}, {2, 2}, {1, 1, 1}, {2, 3, 1}, {3, 2, 2}} {
+	for _, counts := range [][]int{{2}, {3}, {1, 1}, {2, 1}, {1, 2}, {3, 1}, {2, 2}, {1, 1, 1}, {2, 3, 1}, {3, 2, 2}, {0}, {0, 1}, {1, 0}, {0, 0}, {2, 0, 1}} {
 		h := wire.New("hello")
 		for i, c := range counts {
 			h.Add("Elements", wire.New("hello_elem_versionbitmap").Set("Type", 1).SetB("Bitmaps", Pat(4*c, i+c)))
@@ -230,6 +231,21 @@ func Controller(thorough bool, expired func() bool, level func(name string, comp
 			yield(GroupMod(c, t))
 			yield(GroupMod(c, t, Bucket(1)))
 			yield(GroupMod(c, t, Bucket(1, Action("act_output", 1)), Bucket(2, Action("act_group", 2), Action("nx_note", 3))))
+		}
+	}
+	// weights: a select group whose buckets carry no weight, equal weights, and a mix in which a bucket
+	// of weight 0 stands before, between and behind weighted ones (weight is only meaningful for select,
+	// but every group type carries the field)
+	for t := uint64(0); t < 4; t++ {
+		for _, ws := range [][]uint64{{0, 0}, {5, 5}, {0, 5, 7}, {5, 0, 7}, {5, 7, 0}, {0, 0, 9}, {0xffff, 0, 1, 0}} {
+			var bs []*wire.N
+			for i, w := range ws {
+				bs = append(bs, Bucket(i+1, Action("act_output", i+1)).Set("Weight", w))
+			}
+			yield(GroupMod(0, t, bs...))
+			if t == 1 {
+				yield(GroupMod(1, t, clones(bs...)...))
+			}
 		}
 	}
 	// command values the specification does not define (the field is 16 bits wide; OpenFlow 1.5 gives
